@@ -3,13 +3,13 @@
     [Z], [positive], [N], [nat], [Q], [comparison] stay the extracted inductives.  No [Extract Constant]. *)
 From Coq Require Import Extraction ExtrOcamlBasic.
 From Coq Require Import ZArith List.
-From GB Require Import Num NumB Event Intersect Cmp Heap Outcome Divide Fields FillQueue Subdivide Connect BoolOp.
+From GB Require Import Num NumB NumQ Event Intersect Cmp Heap Outcome Divide Fields FillQueue Subdivide Connect BoolOp.
 From GB Require Splay SplayOps Slab Scene Convert.
 
 Extraction Blacklist List String Int.
 
 Separate Extraction
-  NumB.NB64 NumB.NB32 NumB.to_bits NumB.of_bits
+  NumQ.NQ NumB.NB64 NumB.NB32 NumB.to_bits NumB.of_bits
   Outcome.release Outcome.debug Outcome.pinned Outcome.mkCfg
   Event.getE Event.empty_store Event.alloc Event.upd Event.new_event
   Event.set_left Event.set_other Event.set_in_out Event.set_edge_type Event.set_prev_in_result
